@@ -99,7 +99,7 @@ def run(rep, repo, tier):
                "output value set %r is not contained in the declared code "
                "set %r (%s); forward normal form %s" %
                (got, want, txt, show(f, 300)),
-               loc=b.pe.locs.get(b.term), instance=cfg,
+               loc=b.pe.loc_of(b.term), instance=cfg,
                facts={"config": cfg, "got": repr(got), "want": repr(want),
                       "forward": show(f, 600)})
     card_ok = oracle.card_bound(got, bits) or (ok and oracle.card_bound(
